@@ -319,7 +319,7 @@ fn invariant(t: &Time, m: &Model, step: usize, op: &str) -> Option<Verdict> {
 }
 
 fn run_history(c: &Case, cx: &mut Cx) -> Verdict {
-    if c.start_ns as i128 >= DAY || c.start_off.abs() > 86_399 || c.ops.len() > 64 {
+    if c.start_ns as i128 >= DAY || c.start_off.unsigned_abs() > 86_399 || c.ops.len() > 64 {
         return Verdict::Skip("malformed case");
     }
     let mut m = Model { ns: c.start_ns as i128, off: c.start_off };
@@ -362,8 +362,8 @@ fn run_history(c: &Case, cx: &mut Cx) -> Verdict {
             Op::Set { field, .. } if *field > 5 => return Verdict::Skip("malformed case"),
             Op::Clear { until } if *until > 5 => return Verdict::Skip("malformed case"),
             Op::ParseFractions { secs, widths, .. } if *secs > 86_399 || widths.len() > 8 || widths.iter().any(|w| *w == 0 || *w > 5) => return Verdict::Skip("malformed case"),
-            Op::SetOffset { off } | Op::AsOffset { off } if off.abs() > 86_399 => return Verdict::Skip("malformed case"),
-            Op::FromDateTime { i, off } if !i.valid() || off.abs() > 86_399 || i.day < cal::MIN_DAY + 2 || i.day > cal::MAX_DAY - 2 => {
+            Op::SetOffset { off } | Op::AsOffset { off } if off.unsigned_abs() > 86_399 => return Verdict::Skip("malformed case"),
+            Op::FromDateTime { i, off } if !i.valid() || off.unsigned_abs() > 86_399 || i.day < cal::MIN_DAY + 2 || i.day > cal::MAX_DAY - 2 => {
                 return Verdict::Skip("malformed case")
             }
             _ => {}
